@@ -269,6 +269,132 @@ example : ∃ σ', Applies libStore (libProc "make-list" 0) [num 2, num 7] 0 (.o
 example : ∃ σ', Applies libStore (libProc "make-list" 0) [num (-3), num 7] 0 (.ok .nil) σ' ∧ libStore.Ext σ' :=
   make_list_spec libFrame_libStore (-3) (by decide) (num 7) 0
 
+/-- `(append l₁ … lₙ)` on ALL argument lists: `()` for none; the last argument (any value) behind
+the elements of the others (`appendE_eq`: `appendS` when every argument but the last is a proper
+list); the `car` type error when an argument other than the last is not a proper list. The
+procedure recurses through the native `apply`. -/
+theorem append_spec (h : LibFrame σ b) (args : List Value) (env : Nat) :
+    ∃ σ', Applies σ (libProc "append" b) args env (appendE args) σ' ∧ σ.Ext σ' := by
+  cases args with
+  | nil => exact papp_append_nil b σ env h
+  | cons l rest => exact papp_append b rest l σ env h
+
+example : ∃ σ', Applies libStore (libProc "append" 0) [] 0 (.ok .nil) σ' ∧ libStore.Ext σ' :=
+  append_spec libFrame_libStore [] 0
+/-- `(append '(1 2 3) '() '(1 2 3) 7)` is `(1 2 3 1 2 3 . 7)` -/
+example : ∃ σ', Applies libStore (libProc "append" 0) [l123, .nil, l123, num 7] 0
+    (.ok (withTail [num 1, num 2, num 3, num 1, num 2, num 3] (num 7))) σ' ∧ libStore.Ext σ' :=
+  append_spec libFrame_libStore _ 0
+example : appendE [num 5, l123] = .error typeErr ∧ appendE [.pair (num 1) (num 2), l123] = .error typeErr :=
+  ⟨rfl, rfl⟩
+example (xs ys : List Value) : appendE [Value.ofList xs, Value.ofList ys] = .ok (Value.ofList (xs ++ ys)) := by
+  have hd : appendDomain [Value.ofList xs, Value.ofList ys] := ⟨(isProperList_iff _).mpr ⟨xs, rfl⟩, trivial⟩
+  rw [appendE_eq _ hd, appendS_ofList]
+
+/-! ### the higher-order procedures
+
+`f` is an arbitrary procedure value that satisfies `ProcArg b N K f dom`: on the argument lists in
+`dom`, in every store satisfying the caller's invariant `K` (an invariant that appending frames
+cannot break), applying `f` has an outcome, keeps the library frame and the frames the running
+library procedure has allocated (numbers `≥ N`, unreachable for `f`), and re-establishes `K` when
+it returns normally. The conclusion gives the outcome of the library procedure together with the
+exact chain of applications of `f` (`MapM`/`FoldLM`/`FoldRM` in `RuschmSpec/ListLib.lean`): once
+per element, in list order, each in the store the previous one left (up to frames appended by the
+library, `Store.DExt`); the first error ends the traversal and is the outcome. -/
+
+/-- `(map f l)` for EVERY value `l` (elements `xs`, final tail `t`): `f` is applied to each element
+in list order; the result is the list of the results, on the same tail.
+DEVIATION from R7RS: an improper list (or a non-list) is accepted, its tail is returned as the
+tail of the result. -/
+theorem map_spec {K : Store → Prop} {f : Value} (h : LibFrame σ b) (hK : K σ) (l : Value)
+    (hf : ProcArg b σ.frames.size K f (fun args => ∃ x ∈ (spine l).1, args = [x])) (env : Nat) :
+    ∃ r σ', Applies σ (libProc "map" b) [f, l] env (r.map (withTail · (spine l).2)) σ' ∧
+      MapM (AppOf f) Store.DExt σ (spine l).1 r σ' ∧ (∀ vs, r = .ok vs → K σ') := by
+  have := map_run (spine l).2 (spine_tail_not_pair l) (spine l).1 σ h hK (Nat.le_refl _) hf env
+  rwa [spine_withTail] at this
+
+/-- `(for-each f l)`: as `map`, the results being dropped; the value is unspecified (`Void`).
+DEVIATION: an improper tail ends the traversal silently. -/
+theorem for_each_spec {K : Store → Prop} {f : Value} (h : LibFrame σ b) (hK : K σ) (l : Value)
+    (hf : ProcArg b σ.frames.size K f (fun args => ∃ x ∈ (spine l).1, args = [x])) (env : Nat) :
+    ∃ r σ', Applies σ (libProc "for-each" b) [f, l] env (r.map fun _ => Value.void) σ' ∧
+      MapM (AppOf f) Store.DExt σ (spine l).1 r σ' ∧ (∀ vs, r = .ok vs → K σ') := by
+  have := for_each_run (spine l).2 (spine_tail_not_pair l) (spine l).1 σ h hK (Nat.le_refl _) hf env
+  rwa [spine_withTail] at this
+
+/-- `(fold-left f init l)` as minischeme defines it: `(f elem acc)` for each element in list order
+(NOT the `(f acc elem)` of SRFI 1 / R6RS), the result being the next accumulator; on a proper list
+the last accumulator is returned, on an improper one the `car` type error is raised after the last
+element (`foldEnd`). -/
+theorem fold_left_spec {K : Store → Prop} {f : Value} (h : LibFrame σ b) (hK : K σ) (init l : Value)
+    (hf : ProcArg b σ.frames.size K f (fun args => ∃ x ∈ (spine l).1, ∃ a, args = [x, a])) (env : Nat) :
+    ∃ r σ', Applies σ (libProc "fold-left" b) [f, init, l] env (r.bind (foldEnd (spine l).2)) σ' ∧
+      FoldLM (AppOf f) Store.DExt σ init (spine l).1 r σ' ∧ (∀ v, r = .ok v → K σ') := by
+  have := fold_left_run (spine l).2 (spine_tail_not_pair l) (spine l).1 σ init h hK (Nat.le_refl _) hf env
+  rwa [spine_withTail] at this
+
+/-- `(fold-right f init l)` on a proper list: `(f elem (fold-right f init rest))` — the applications
+happen on the way back, last element first, the outermost one as a tail call. -/
+theorem fold_right_spec {K : Store → Prop} {f : Value} (h : LibFrame σ b) (hK : K σ) (init : Value)
+    (xs : List Value) (hf : ProcArg b σ.frames.size K f (fun args => ∃ x ∈ xs, ∃ a, args = [x, a])) (env : Nat) :
+    ∃ r σ', Applies σ (libProc "fold-right" b) [f, init, Value.ofList xs] env r σ' ∧
+      FoldRM (AppOf f) Store.DExt σ init xs r σ' ∧ (∀ v, r = .ok v → K σ') := by
+  obtain ⟨r, σ', h₁, h₂, h₃, _⟩ := fold_right_run xs σ init h hK (Nat.le_refl _) hf env
+  exact ⟨r, σ', h₁, h₂, h₃⟩
+
+/-! non-vacuity: the host procedure `tick` (returns its argument and records it on the trace) is a
+procedure argument in every store; mapping it over `(1 2 3)` returns `(1 2 3)` and leaves the
+trace `3 2 1` (most recent first): one application per element, in list order -/
+example : ∃ σ', Applies libStore (libProc "map" 0) [.builtin .tick, l123] 0 (.ok l123) σ' ∧
+    σ'.ticks = ["i:3", "i:2", "i:1"] := by
+  obtain ⟨r, σ', h₁, h₂, _⟩ := map_spec (K := fun _ => True) libFrame_libStore trivial l123
+    (procArg_tick 0 _ _ fun args ⟨x, _, e⟩ => e ▸ rfl) 0
+  obtain ⟨rfl, ht, _⟩ := mapM_tick h₂
+  exact ⟨σ', h₁, ht⟩
+
+example : ∃ σ', Applies libStore (libProc "for-each" 0) [.builtin .tick, l123] 0 (.ok .void) σ' ∧
+    σ'.ticks = ["i:3", "i:2", "i:1"] := by
+  obtain ⟨r, σ', h₁, h₂, _⟩ := for_each_spec (K := fun _ => True) libFrame_libStore trivial l123
+    (procArg_tick 0 _ _ fun args ⟨x, _, e⟩ => e ▸ rfl) 0
+  obtain ⟨rfl, ht, _⟩ := mapM_tick h₂
+  exact ⟨σ', h₁, ht⟩
+
+/-- `cons` is a procedure argument of the folds in every store -/
+theorem procArg_cons (b N : Nat) (dom : List Value → Prop) (hd : ∀ args, dom args → args.length = 2) :
+    ProcArg b N (fun _ => True) (.builtin .cons) dom :=
+  ProcArg.builtin (by decide) (fun args h => by rw [hd args h]; rfl)
+    (fun σ args h => by
+      match args, hd args h with
+      | [a, d], _ => simp [Prim.applyPure, Prim.ok])
+    (fun σ args => by
+      match args with
+      | [] | [_] => rfl
+      | _ :: _ :: _ => rfl)
+
+/-- `(fold-right cons '() '(1 2 3))` is `(1 2 3)`; `(fold-left cons '() '(1 2 3))` is `(3 2 1)` -/
+example : ∃ σ', Applies libStore (libProc "fold-right" 0) [.builtin .cons, .nil, l123] 0 (.ok l123) σ' := by
+  obtain ⟨r, σ', h₁, h₂, _⟩ := fold_right_spec (K := fun _ => True) libFrame_libStore trivial .nil
+    [num 1, num 2, num 3] (procArg_cons 0 _ _ fun args ⟨x, _, a, e⟩ => e ▸ rfl) 0
+  refine ⟨σ', ?_⟩
+  have hcons : ∀ {σ a d r σ'}, AppOf (.builtin .cons) σ [a, d] r σ' → r = .ok (.pair a d) := fun h =>
+    (Applies.unique (h 0) (cons_spec _ _ _ 0)).1
+  cases h₂ with
+  | cons_err _ h₂ _ =>
+    cases h₂ with
+    | cons_err _ h₂ _ =>
+      cases h₂ with
+      | cons_err _ h₂ _ => cases h₂
+      | cons _ _ _ h => cases hcons h
+    | cons _ _ _ h => cases hcons h
+  | cons _ h₂ _ h =>
+    cases h₂ with
+    | cons _ h₂ _ h' =>
+      cases h₂ with
+      | cons _ h₂ _ h'' =>
+        cases h₂
+        cases hcons h''; cases hcons h'; cases hcons h
+        exact h₁
+
 end lib
 
 end Ruschm.C11
